@@ -9,6 +9,7 @@ import Proofs.RdataTable
 import Proofs.RdataLoc
 import Proofs.RdataSvcb
 import Proofs.RdataApl
+import Proofs.RdataOpt
 /-!
 # C02 — every record type's wire form round-trips and re-encodes byte-identically
 
@@ -207,12 +208,18 @@ theorem generic_roundtrip (c t : Nat) (h : ∀ e ∈ table, ¬(e.typ = t ∧ (e.
     rw [List.find?_eq_none]; intro e he; have := h e he; simp; intro h1 h2; exact this ⟨h2, Or.inl h1⟩
   have h2 : table.find? (fun e => e.cls == anyClass && e.typ == t) = none := by
     rw [List.find?_eq_none]; intro e he; have := h e he; simp; intro h1 h2; exact this ⟨h2, Or.inr h1⟩
-  simp [lookup, h1, h2, genericEntry, Entry.encode, Entry.decode, Entry.pre, Entry.post, decodeWith, dec, enc]
+  simp [lookup, h1, h2, genericEntry, Entry.encode, Entry.decode, Entry.pre, Entry.post, Entry.schema, Entry.custom,
+    decodeWith, dec, enc]
 
 /-- every (class, type) with a module in the working tree has a schema in the model (or is declared oracle-only):
 a type added to the code without a schema makes this obligation fail. -/
 theorem implemented_covered :
     ∀ p ∈ ConstsC02.implementedTypes, p ∈ modelledTypes ∨ p ∈ declaredOracleOnly := by decide
+
+/-- the table's class column is the directory the module lives in (`dns/rdtypes/ANY` = 255, `IN` = 1, `CH` = 3):
+a module moved to another class directory, added or removed breaks this obligation -/
+theorem class_dirs_match :
+    (∀ p ∈ ConstsC02.moduleFiles, p ∈ modelledTypes) ∧ (∀ p ∈ modelledTypes, p ∈ ConstsC02.moduleFiles) := by decide
 
 /-- … and the model has no entry for a type that the code does not implement -/
 theorem modelled_implemented : ∀ p ∈ modelledTypes, p ∈ ConstsC02.implementedTypes := by decide
@@ -233,25 +240,273 @@ theorem consts_as_specified :
     ConstsC02.svcbParamClasses = [0, 1, 2, 3, 4, 5, 6, 8, 10] ∧
     Consts.maxTTL = 2 ^ 32 - 1 ∧ Consts.maxLabel = 63 ∧ Consts.maxName = 255 := by decide
 
-/-! ## recorded defect of the unchanged tree (KNOWN_FINDINGS.json, `C02/fixpoint/EDE-text-ends-with-NUL/ANY-41`)
+/-! ## every type, every accepted octet string -/
 
-OPT is one of the types with an object-level view (`optPost`); the model follows the code as shipped:
-`EDEOption.from_wire_parser` drops *one* trailing NUL of the EXTRA-TEXT and `to_wire` writes the text as stored.
-For these entries the fixed-point clause is not a theorem; its negation is proved at the witness.
-Full statement that fails:  `∀ b v, (lookup c 41).decode o pfx b = .ok v →
-  (lookup c 41).decode o pfx' ((lookup c 41).encode o v) = .ok v`. -/
+/-- the object-level view of every table entry is stable: the raw record rebuilt from the view of a valid raw
+record is valid, and its own view rebuilds the same raw record (identity for plain schemas; `loc_pre_post`,
+`opt_post_post`, `apl_pre_post`, `svcb_post_post` for LOC, OPT, APL, SVCB/HTTPS) -/
+theorem entry_view_stable (e : Entry) (hns : e.kind.isShipped = false) (o : Option Name) :
+    ∀ r w, valid e.schema o r = true → e.post r = some w →
+      valid e.schema o (e.pre w) = true ∧ ∃ w', e.post (e.pre w) = some w' ∧ e.pre w' = e.pre w := by
+  obtain ⟨c, t, m, k⟩ := e
+  intro r w hr hw
+  cases k with
+  | regular s =>
+    simp only [Entry.post, Entry.pre, Entry.custom, Entry.schema, Option.some.injEq] at hr hw ⊢
+    subst hw; exact ⟨hr, r, rfl, rfl⟩
+  | loc =>
+    simp only [Entry.post, Entry.pre, Entry.custom, Entry.schema] at hr hw ⊢
+    obtain ⟨a, b⟩ := loc_pre_post o r w hr hw
+    exact ⟨a, w, b, rfl⟩
+  | opt =>
+    simp only [Entry.post, Entry.pre, Entry.custom, Entry.schema, id] at hr hw ⊢
+    obtain ⟨a, b⟩ := opt_post_post o r w hr hw
+    exact ⟨a, w, b, rfl⟩
+  | optShipped => simp [Kind.isShipped] at hns
+  | apl =>
+    simp only [Entry.post, Entry.pre, Entry.custom, Entry.schema] at hr hw ⊢
+    exact apl_pre_post o r w hr hw
+  | svcb =>
+    simp only [Entry.post, Entry.pre, Entry.custom, Entry.schema, id] at hr hw ⊢
+    obtain ⟨a, b⟩ := svcb_post_post o r w hr hw
+    exact ⟨a, w, b, rfl⟩
 
-/-- an EDE option with text `61 00 00`: decoding yields text `61 00`, whose encoding decodes to text `61` and
-re-encodes to different octets — not a fixed point -/
-theorem ede_trailing_nul_not_fixpoint :
-    ∃ v v', (lookup 4096 41).decode none [] [0, 15, 0, 5, 0, 3, 97, 0, 0] = .ok v ∧
-      (lookup 4096 41).decode none [] ((lookup 4096 41).encode none v) = .ok v' ∧
-      (lookup 4096 41).encode none v' ≠ (lookup 4096 41).encode none v := by
+/-- *"Decoding arbitrary octets as any record type either reports a format error or yields a record … whose
+encoding is a fixed point of decode-then-encode"* — for **every** entry of the table (all 69 implemented types):
+whatever octet string is accepted, the encoding of the decoded object decodes again, and what comes out encodes to
+the same octets. -/
+theorem all_types_fixpoint : ∀ e ∈ table, ∀ (o : Option Name) (pfx rdata : Bytes) (v : Val),
+    OctetsOkB rdata → NameSound o → e.decode o pfx rdata = .ok v →
+    ∀ pfx', ∃ v', e.decode o pfx' (e.encode o v) = .ok v' ∧ e.encode o v' = e.encode o v := by
+  intro e he o pfx rdata v hoct hN h pfx'
+  exact custom_fixpoint e o (table_wf e he) (entry_view_stable e (table_not_shipped e he) o) pfx rdata v hoct hN h pfx'
+
+/-- the same for whatever `dns.rdata.get_rdata_class` dispatches to: any class, any type code, implemented or not -/
+theorem every_pair_fixpoint (c t : Nat) (o : Option Name) (pfx rdata : Bytes) (v : Val)
+    (hoct : OctetsOkB rdata) (hN : NameSound o) (h : (lookup c t).decode o pfx rdata = .ok v) (pfx' : Bytes) :
+    ∃ v', (lookup c t).decode o pfx' ((lookup c t).encode o v) = .ok v' ∧
+      (lookup c t).encode o v' = (lookup c t).encode o v := by
+  rcases lookup_mem_or_generic c t with hm | hg
+  · exact all_types_fixpoint _ hm o pfx rdata v hoct hN h pfx'
+  · rw [hg] at h ⊢
+    exact custom_fixpoint _ o (by simp [genericEntry, Entry.schema, wf, sdwf])
+      (entry_view_stable _ (by simp [genericEntry, Kind.isShipped]) o) pfx rdata v hoct hN h pfx'
+
+/-- OPT with the EDNS option codecs of `dns/edns.py` (ECS masked to its source prefix, EDE text without trailing
+NULs, COOKIE, NSID, REPORTCHANNEL, the UTF-8 text options, generic): the decoded option list is reproduced exactly
+by decoding its own encoding -/
+theorem opt_fixpoint (c : Nat) (o : Option Name) (pfx rdata : Bytes) (v : Val) (hoct : OctetsOkB rdata)
+    (hN : NameSound o) (h : (lookup c 41).decode o pfx rdata = .ok v) (pfx' : Bytes) :
+    (lookup c 41).decode o pfx' ((lookup c 41).encode o v) = .ok v := by
+  have key : ∀ e : Entry, wf e.schema = true → e.kind = .opt →
+      e.decode o pfx rdata = .ok v → e.decode o pfx' (e.encode o v) = .ok v := by
+    intro e hwf hk h
+    obtain ⟨c', t', m', k'⟩ := e
+    simp only at hk; subst hk
+    unfold Entry.decode at h
+    split at h
+    · simp at h
+    · rename_i r hr
+      split at h
+      · rename_i w hw
+        simp at h; subst h
+        obtain ⟨hv, _⟩ := dec_fixpoint _ o pfx rdata r hwf hoct hN hr
+        simp only [Entry.post, Entry.custom, Entry.schema] at hw hv hwf
+        obtain ⟨a, b⟩ := opt_post_post o r w hv hw
+        simp [Entry.decode, Entry.encode, Entry.pre, Entry.post, Entry.custom, Entry.schema,
+          decode_encode optSchema o w hwf a pfx', b]
+      · simp at h
+  -- the only entry of type 41 is OPT, for any class
+  have hk : (lookup c 41).kind = .opt := by
+    unfold lookup
+    by_cases hc : c = 255
+    · subst hc; rfl
+    · have h1 : table.find? (fun e => e.cls == c && e.typ == 41) = none := by
+        rw [List.find?_eq_none]
+        intro e he hh
+        have : ∀ e ∈ table, e.typ = 41 → e.cls = 255 := by decide
+        simp only [Bool.and_eq_true, beq_iff_eq] at hh
+        exact hc (hh.1 ▸ this e he hh.2)
+      rw [h1]; rfl
+  exact key _ (lookup_wf c 41) hk h
+
+/-! ## per-type statements
+
+`type_codec c t`: for the codec `dns.rdata.get_rdata_class(c, t)` dispatches to, when its object-level tree is
+the decoded tree itself (all but LOC, OPT, APL, SVCB, HTTPS, which have `loc_fixpoint`, `opt_fixpoint`, `apl_fixpoint`,
+`svcb_fixpoint`): (i) every valid value decodes from its encoding, behind any prefix, with or without an origin;
+(ii) every accepted octet string decodes to a value that is reproduced exactly by decoding its own encoding.
+The named instances below are the irregular codecs (length fields apart from their data, tag-dependent gateways,
+optional tails, cross-field and text-syntax checks); each comes with a concrete valid value. -/
+
+/-- round trip (i) and decode–encode–decode fixed point (ii) of the codec for class `c`, type `t` -/
+def TypeCodec (c t : Nat) : Prop :=
+    (∀ (o : Option Name) (v : Val) (pfx : Bytes), valid (lookup c t).schema o v = true →
+      (lookup c t).decode o pfx ((lookup c t).encode o v) = .ok v) ∧
+    (∀ (o : Option Name) (pfx rdata : Bytes) (v : Val), OctetsOkB rdata → NameSound o →
+      (lookup c t).decode o pfx rdata = .ok v → ∀ pfx', (lookup c t).decode o pfx' ((lookup c t).encode o v) = .ok v)
+
+theorem type_codec (c t : Nat) (hreg : (lookup c t).custom = none) : TypeCodec c t := by
+  have hwf := lookup_wf c t
+  constructor
+  · intro o v pfx hv
+    simp [Entry.decode, Entry.encode, Entry.pre, Entry.post, hreg, decode_encode _ o v hwf hv pfx]
+  · intro o pfx rdata v hoct hN h pfx'
+    have hd : decodeWith (lookup c t).schema o pfx rdata = .ok v := by
+      simp only [Entry.decode, Entry.post, hreg] at h
+      split at h
+      · simp at h
+      · rename_i w hw; simp at h; subst h; exact hw
+    obtain ⟨_, hfix⟩ := dec_fixpoint _ o pfx rdata v hwf hoct hN hd
+    simp [Entry.decode, Entry.encode, Entry.pre, Entry.post, hreg, hfix pfx']
+
+/-- HIP -/
+theorem hip_codec : TypeCodec 1 55 := type_codec 1 55 rfl
+example : valid (lookup 1 55).schema none (.pair (.pair (.nat 2) (.pair (.nat 1) (.nat 3))) (.pair (.bytes [1, 2]) (.pair (.bytes [3, 4, 5]) (.list [.name [[97], []]])))) = true := by decide
+
+/-- CERT -/
+theorem cert_codec : TypeCodec 1 37 := type_codec 1 37 rfl
+example : valid (lookup 1 37).schema none (seqV [.nat 1, .nat 2, .nat 8, .bytes [0, 255]]) = true := by decide
+
+/-- TKEY -/
+theorem tkey_codec : TypeCodec 255 249 := type_codec 255 249 rfl
+example : valid (lookup 255 249).schema none (seqV [.name [[97], []], .nat 1, .nat 2, .nat 3, .nat 0, .bytes [1], .bytes []]) = true := by decide
+
+/-- TSIG -/
+theorem tsig_codec : TypeCodec 255 250 := type_codec 255 250 rfl
+example : valid (lookup 255 250).schema none (seqV [.name [[104], []], .nat (2 ^ 48 - 1), .nat 300, .bytes [9, 9], .nat 65535, .nat 16, .bytes []]) = true := by decide
+
+/-- NAPTR -/
+theorem naptr_codec : TypeCodec 1 35 := type_codec 1 35 rfl
+example : valid (lookup 1 35).schema none (seqV [.nat 100, .nat 10, .bytes [83], .bytes [], .bytes [33, 94], .name [[]]]) = true := by decide
+
+/-- GPOS -/
+theorem gpos_codec : TypeCodec 1 27 := type_codec 1 27 rfl
+example : valid (lookup 1 27).schema none (seqV [.bytes [45, 51, 50, 46, 54], .bytes [49, 49, 54, 46], .bytes [49, 48]]) = true := by decide
+
+/-- WKS -/
+theorem wks_codec : TypeCodec 1 11 := type_codec 1 11 rfl
+example : valid (lookup 1 11).schema none (seqV [.bytes [10, 0, 0, 1], .nat 6, .bytes [0, 0, 64]]) = true := by decide
+
+/-- NSAP -/
+theorem nsap_codec : TypeCodec 1 22 := type_codec 1 22 rfl
+example : valid (lookup 1 22).schema none (.bytes [71, 0, 5]) = true := by decide
+
+/-- ISDN -/
+theorem isdn_codec : TypeCodec 1 20 := type_codec 1 20 rfl
+example : valid (lookup 1 20).schema none (.pair (.bytes [49, 53]) (.bytes [48])) = true := by decide
+
+/-- X25 -/
+theorem x25_codec : TypeCodec 1 19 := type_codec 1 19 rfl
+example : valid (lookup 1 19).schema none (.bytes [51, 49]) = true := by decide
+
+/-- HINFO -/
+theorem hinfo_codec : TypeCodec 1 13 := type_codec 1 13 rfl
+example : valid (lookup 1 13).schema none (.pair (.bytes [255, 0]) (.bytes [])) = true := by decide
+
+/-- CAA -/
+theorem caa_codec : TypeCodec 1 257 := type_codec 1 257 rfl
+example : valid (lookup 1 257).schema none (seqV [.nat 128, .bytes [105, 115, 115, 117, 101], .bytes [0, 255]]) = true := by decide
+
+/-- URI -/
+theorem uri_codec : TypeCodec 1 256 := type_codec 1 256 rfl
+example : valid (lookup 1 256).schema none (seqV [.nat 10, .nat 1, .bytes [104]]) = true := by decide
+
+/-- DSYNC -/
+theorem dsync_codec : TypeCodec 1 66 := type_codec 1 66 rfl
+example : valid (lookup 1 66).schema none (seqV [.nat 59, .nat 1, .nat 5359, .name [[97], []]]) = true := by decide
+
+/-- ZONEMD -/
+theorem zonemd_codec : TypeCodec 1 63 := type_codec 1 63 rfl
+example : valid (lookup 1 63).schema none (seqV [.nat 2018031900, .nat 1, .nat 1, .bytes (List.replicate 48 7)]) = true := by decide
+
+/-- AMTRELAY -/
+theorem amtrelay_codec : TypeCodec 1 260 := type_codec 1 260 rfl
+example : valid (lookup 1 260).schema none (.pair (.pair (.nat 10) (.nat 131)) (.name [[97], []])) = true := by decide
+
+/-- IPSECKEY -/
+theorem ipseckey_codec : TypeCodec 1 45 := type_codec 1 45 rfl
+example : valid (lookup 1 45).schema none (.pair (.pair (.pair (.nat 10) (.pair (.nat 1) (.nat 2))) (.bytes [192, 0, 2, 1])) (.bytes [1, 2])) = true := by decide
+
+/-- L32 -/
+theorem l32_codec : TypeCodec 1 105 := type_codec 1 105 rfl
+example : valid (lookup 1 105).schema none (.pair (.nat 10) (.bytes [10, 1, 2, 0])) = true := by decide
+
+/-- L64 -/
+theorem l64_codec : TypeCodec 1 106 := type_codec 1 106 rfl
+example : valid (lookup 1 106).schema none (.pair (.nat 10) (.bytes [32, 1, 13, 184, 18, 52, 86, 120])) = true := by decide
+
+/-- NID -/
+theorem nid_codec : TypeCodec 1 104 := type_codec 1 104 rfl
+example : valid (lookup 1 104).schema none (.pair (.nat 10) (.bytes [0, 20, 79, 255, 255, 32, 238, 100])) = true := by decide
+
+/-- A (class CH) -/
+theorem chA_codec : TypeCodec 3 1 := type_codec 3 1 rfl
+example : valid (lookup 3 1).schema none (.pair (.name [[97], []]) (.nat 668)) = true := by decide
+
+/-- SOA -/
+theorem soa_codec : TypeCodec 1 6 := type_codec 1 6 rfl
+example : valid (lookup 1 6).schema none (seqV [.name [[110, 115], []], .name [[]], .nat 1, .nat 2, .nat 3, .nat 4, .nat (2 ^ 32 - 1)]) = true := by decide
+
+/-- RRSIG -/
+theorem rrsig_codec : TypeCodec 1 46 := type_codec 1 46 rfl
+example : valid (lookup 1 46).schema none (seqV [.nat 1, .nat 13, .nat 2, .nat 3600, .nat 1, .nat 2, .nat 12345, .name [[101], []], .bytes [1, 2, 3]]) = true := by decide
+
+/-- NSEC3 -/
+theorem nsec3_codec : TypeCodec 1 50 := type_codec 1 50 rfl
+example : valid (lookup 1 50).schema none (seqV [.nat 1, .nat 0, .nat 10, .bytes [171], .bytes [1, 2, 3], .list [.pair (.nat 0) (.bytes [64])]]) = true := by decide
+
+/-- TXT -/
+theorem txt_codec : TypeCodec 1 16 := type_codec 1 16 rfl
+example : valid (lookup 1 16).schema none (.list [.bytes [], .bytes (List.replicate 40 34)]) = true := by decide
+
+/-- DS -/
+theorem ds_codec : TypeCodec 1 43 := type_codec 1 43 rfl
+example : valid (lookup 1 43).schema none (seqV [.nat 60485, .nat 5, .nat 1, .bytes (List.replicate 20 9)]) = true := by decide
+
+/-! ## the defect repaired by `9fad6cc` (was KNOWN_FINDINGS `C02/fixpoint/EDE-text-ends-with-NUL/ANY-41`)
+
+Before the repair `EDEOption.from_wire_parser` dropped *one* trailing NUL of the EXTRA-TEXT.  That variant is retained
+as `Kind.optShipped` (the driver uses it when the working tree still behaves that way); it is not a table entry
+(`table_not_shipped`) and the fixed-point clause fails for it: -/
+
+def optShippedEntry : Entry := { cls := anyClass, typ := 41, mnemonic := "OPT", kind := .optShipped }
+
+/-- as shipped, an EDE option with text `61 00 00` decoded to text `61 00`, whose encoding decoded to text `61`
+and re-encoded to different octets — not a fixed point -/
+theorem ede_trailing_nul_not_fixpoint_as_shipped :
+    ∃ v v', optShippedEntry.decode none [] [0, 15, 0, 5, 0, 3, 97, 0, 0] = .ok v ∧
+      optShippedEntry.decode none [] (optShippedEntry.encode none v) = .ok v' ∧
+      optShippedEntry.encode none v' ≠ optShippedEntry.encode none v := by
   refine ⟨.list [.pair (.nat 15) (.pair (.nat 3) (.bytes [97, 0]))],
           .list [.pair (.nat 15) (.pair (.nat 3) (.bytes [97]))], ?_, ?_, ?_⟩
   · rfl
   · rfl
   · decide
+
+/-- … while the table's OPT entry (the repaired code) maps the same octets to a fixed point -/
+theorem ede_trailing_nul_fixed :
+    (lookup 4096 41).decode none [] [0, 15, 0, 5, 0, 3, 97, 0, 0] =
+      .ok (.list [.pair (.nat 15) (.pair (.nat 3) (.bytes [97]))]) := by rfl
+
+/-! ## recorded defect of the working tree (KNOWN_FINDINGS.json,
+`C02/wire-roundtrip/decode-rejects-own-encoding/ANY-29/coordinate-beyond-limit-at-max-degrees`)
+
+`LOC.__init__` checks a coordinate tuple with `_check_coordinate_list` (`locCoordCtorOk`: degrees ≤ 90 / 180, minutes
+and seconds ≤ 59, milliseconds ≤ 999) — not the total.  For LOC the round-trip theorem `all_types_roundtrip` therefore
+carries the side condition `post (pre v) = some v`, which holds exactly for the values the decoder accepts back
+(`loc_fixpoint`); the full statement `locCtorOk v → decode (encode v) = .ok v` fails at the witness: -/
+
+/-- `90 30 0.000 N  0 0 0.000 E  0m` passes the constructor's check, and its encoding is rejected by the decoder -/
+theorem loc_max_degrees_not_roundtrip :
+    locCoordCtorOk (seqV [.nat 90, .nat 30, .nat 0, .nat 0, .nat 1]) 90 = true ∧
+    locCoordCtorOk (seqV [.nat 0, .nat 0, .nat 0, .nat 0, .nat 1]) 180 = true ∧
+    (lookup 1 29).decode none []
+      ((lookup 1 29).encode none
+        (seqV [.nat 100, .nat 1000000, .nat 1000, seqV [.nat 90, .nat 30, .nat 0, .nat 0, .nat 1],
+               seqV [.nat 0, .nat 0, .nat 0, .nat 0, .nat 1], .nat 10000000])) = .error .form := by
+  refine ⟨by decide, by decide, ?_⟩
+  rfl
 
 /-! ## non-vacuity -/
 
